@@ -91,6 +91,9 @@ def _run(tool, ev, outcome, gene, skip_failed, thr=None, fields=None):
     recs = [_Rec(i, ev[i] or tool == 3, outcome[i], gene[i]) for i in range(n)]
     for r in recs:
         r.__dict__.update(fields or {})
+        if fields and fields.get('real_arriba_is_valid'):
+            from moPepGen.parser.ArribaParser import ArribaRecord
+            r.is_valid = (lambda rec: lambda m1, m2, c: ArribaRecord.is_valid(rec, m1, m2, c))(r)
     written = []
     holder = {}
     real_tally = mod.TallyTable
@@ -283,3 +286,34 @@ def c15_cli_thresholds(fcatcher: bool, est_j: int, common: int, spanning: int, m
     post: _ >= 0
     """
     return _thresholds(1 if fcatcher else 0, est_j, common, spanning, min_est_j, max_common, min_spanning)
+
+
+def _arriba_cli(s1, s2, m1, m2):
+    from moPepGen.parser.ArribaParser import ArribaConfidence
+    fields = {'split_reads1': s1, 'split_reads2': s2, 'confidence': ArribaConfidence('high'),
+              'real_arriba_is_valid': True}
+    thr = {'min_split_read1': m1, 'min_split_read2': m2, 'min_confidence': 'medium'}
+    written, t = _run(2, [True], [0], [0], False, thr, fields)
+    if s1 >= m1 and s2 >= m2:
+        if written != [0] or t.succeed != 1 or t.skipped.total != 0:
+            return -1
+    else:
+        if written:
+            return -2
+        if t.skipped.insufficient_evidence != 1 or t.skipped.total != 1 or t.succeed != 0:
+            return -3
+    return OK
+
+
+@cond('C15', bounds='parseArriba command loop, one high-confidence record, minimum confidence medium: split reads of both '
+      'sides and both --min-split-read values UNBOUNDED symbolic integers (each option reaches its own side)',
+      encodes=['moPepGen.cli.parse_arriba.parse_arriba', 'moPepGen.parser.ArribaParser.ArribaRecord.is_valid'],
+      stubs=['parser parse(), reference loading, GVF writing, record conversion (always succeeds), antisense test (False)'],
+      codes={-1: 'a record meeting the evidence thresholds was not converted',
+             -2: 'a record failing an evidence threshold was converted and written',
+             -3: 'skipped record not counted (insufficient evidence)'}, timeout=300)
+def c15_arriba_cli_thresholds(s1: int, s2: int, m1: int, m2: int) -> int:
+    """
+    post: _ >= 0
+    """
+    return _arriba_cli(s1, s2, m1, m2)
